@@ -17,15 +17,20 @@ META = {
             "call, or returned), no callback ever touches a cell it does not own, obtained - returned = held + cached "
             "at quiescence, the destructor returns the whole cache, a strict pool never creates objects and a blocked "
             "pop is enabled as soon as its cell is filled, the recycler runs once per push, overflow is destroyed not "
-            "leaked; (B) a sequential model of Counting(Batch(upstream)) for every batch size and call sequence.  The "
+            "leaked; (B) a sequential model of Counting(Batch(upstream)) for every batch size and call sequence; (C) a model of "
+            "handles (unique_ptr<T, Deleter>) and of the routing of push / Deleter::operator() between any number of pools "
+            "in both modes, for every call sequence: push(handle) into pool j = push(unique_ptr<T>) into pool j whatever "
+            "the handle is bound to, conservation over all pools and handles, loss only by an unbound handle dying, a "
+            "pool's objects are in its free list or in handles bound to it.  The "
             "need/claim counts, the compensation test, the pool capacity test, the destructor count, the batch "
-            "refill/offset formulas and the counting deltas are regenerated from the C++ on every run.  Tie: the real "
+            "refill/offset formulas, the counting deltas and what the bodies of push(unique_ptr<T, Deleter>&&) and "
+            "Deleter::operator() call are regenerated from the C++ on every run.  Tie: the real "
             "classes run under the deterministic scheduler (pre-emption at every atomic operation, no repo edits) "
             "with a recording upstream allocator; every outcome they produce on small programs must be one the "
             "exhaustively explored extracted model admits; monitors (harness-side ownership map page -> holder, "
             "double free, conservation at quiescence, destructor drains, recycler count, no creation in strict "
             "mode, hang detection) check the property text directly on every run.",
-    "note": "20 theorems, all closed under the global context: c17_single_owner, c17_conservation(+_at_quiescence), "
+    "note": "25 theorems, all closed under the global context: c17_push_handle_routes_into_this_pool, c17_push_handle_spec, c17_pools_conservation, c17_lost_only_by_unbound_handle_dying, c17_pool_owns_its_objects, c17_single_owner, c17_conservation(+_at_quiescence), "
             "c17_dtor_returns_cache, c17_cache_bounded (EVERY reachable state) and _at_quiescence, "
             "c17_callbacks_advance_cursor, c17_segments_partition_the_claim, c17_claims_fit_the_cache, "
             "c17_compensates_when_starved, c17_strict_never_creates, c17_strict_bound, c17_blocked_pop_resumes, "
@@ -555,7 +560,11 @@ def main(argv):
                        "ObjectPool pop/push/Deleter/try_pop in auto-create mode (capacity 0,1,2,4) and strict mode "
                        "(1-3 injected objects), PageHeap; strategies: uniform random and round-robin with random "
                        "pre-emption rates 10%-82%; batch/counting: random call sequences over 1-3 threads, batch sizes "
-                       "1,2,3,5,8, compared exactly with the model; distinct non-trivial = distinct (program, observed "
+                       "1,2,3,5,8, compared exactly with the model; several pools (kind M, strict/auto mixes, capacity 1-4): handles "
+                       "popped from pool i or built around a new object with an unbound Deleter pushed into pool j through "
+                       "both push overloads, dying, moved; single-thread sequences compared exactly with the model, 2-3 "
+                       "threads with monitors (route: a pool only hands out / holds what was put into it; recycler of the "
+                       "destination pool exactly once; leak; blocked pop resumes = no deadlock); distinct non-trivial = distinct (program, observed "
                        "outcome) pairs; small programs are explored exhaustively in the extracted model and every "
                        "implementation outcome must be in the model's outcome set")
     for cid in list(impl_out)[:: max(1, len(impl_out) // 5)]:
